@@ -20,7 +20,7 @@ from harness import scen, xmlabs
 from harness.gallina import glist, gstr
 
 ID = "C05"
-COQ_TARGETS = ["XmiLoad.vo", "XmiLoadProofs.vo", "CorrC05.vo", "Props/C05.vo"]
+COQ_TARGETS = ["XmiLoad.vo", "XmiLoadProofs.vo", "XmiLoadProofs2.vo", "CorrC05.vo", "Props/C05.vo"]
 PROPS_FILE = "Props/C05.v"
 CORR_IMPORTS = "Base Heap Schema Canon XmiDoc XmiLoad CorrC05"
 ENTRY = "cassis.xmi.load_cas_from_xmi / CasXmiDeserializer.deserialize"
@@ -51,8 +51,9 @@ TRUSTED = [
 ASSUMPTIONS = [
     "user features are not called sofa, xmiID, elements, head or tail (DESIGN section 6: structural names; Cas.add sets any "
     "attribute called sofa)",
-    "documents are closed (doc_ok_xmi): distinct ids, resolvable references; annotations are members of the view of "
-    "their own sofa only",
+    "premises of C05_load_xmi_is_denotation (reader_okb, counted per case): closed document (doc_ok_xmi), _InitialView sofa "
+    "present, distinct view names, elements of defined types named by the UIMA rule, child elements only under string "
+    "array / list features, annotations members of the view of their own sofa only",
     "feature structures not reachable from any view member are compared with the model only through what references them "
     "(scen.canon observes from the view members)",
 ]
@@ -582,7 +583,7 @@ def generate(rng, tier):
     from harness import core
     cassis = core.load_impl() if "cassis" not in _CACHE else _CACHE["cassis"]
     _CACHE["cassis"] = cassis
-    n_scen = {"quick": 34, "thorough": 260, "search": 300}[tier]
+    n_scen = {"quick": 48, "thorough": 260, "search": 300}[tier]
     n_var = {"quick": (1, 2), "thorough": (4, 6), "search": (3, 5)}[tier]
     for k in range(n_scen):
         r = random.Random(rng.randrange(1 << 30))
